@@ -8,7 +8,7 @@ import (
 func init() {
 	register("C36", []string{"."}, runC36)
 	register("C37", []string{"."}, runC37)
-	propExplain["C36"] = "Decides structural clauses of C36: ingested tables become visible only through the commit pipeline (ingestApply is referenced only from DB.ingest's apply callback; link ⊢ attach ⊢ provider sync ⊢ AllocateSeqNum); the caller's original files are removed only after AllocateSeqNum and only on the success edge, and the files linked by this ingest are cleaned up on the failure edge; an excise is registered in ongoingExcises under DB.mu and unregistered only after the pipeline published it; a flushable ingest writes and syncs its WAL record (fatal on error) before the ingested flushable is queued and the read state refreshed. Does not decide equivalence to a batch (behaviour)."
+	propExplain["C36"] = "Decides structural clauses of C36: ingested tables become visible only through the commit pipeline (ingestApply is referenced only from DB.ingest's apply callback; link ⊢ attach ⊢ provider sync ⊢ AllocateSeqNum); the caller's original files are removed only after AllocateSeqNum and only on the success edge, and the files linked by this ingest are cleaned up on the failure edge; an excise is registered in ongoingExcises under DB.mu and unregistered only after the pipeline published it; a flushable ingest writes and syncs its WAL record (fatal on error) before the ingested flushable is queued and the read state refreshed. (O3) the prepare callback examines every queued flushable for overlap with the ingest (no iteration of that loop ends without the overlap call). Does not decide equivalence to a batch (behaviour)."
 	propExplain["C37"] = "Decides structural clauses of C37: an eventually-file-only snapshot reads its sequence number, waits for overlapping excises and registers itself (snapshot list or version reference) in one DB.mu region (C03.R1); the transition stores the version into the snapshot before the underlying sequence-number snapshot is closed, all under the EFOS mutex; the version reference handed to the transition is stored or released on every path (C04.P3); transitions are attempted only after a flush refreshed the read state through a successful MANIFEST update. (O4) at creation every entry of the flushable queue is examined for overlap with the snapshot's key ranges before the snapshot may start out file-only (no iteration of that loop ends without the overlap call). Does not decide protected-range semantics."
 	propTechnique["C36"] = "who-may-call, SSA error-gated dominance, lock-region, obligation-as-fact"
 	propTechnique["C37"] = "SSA lock-region and ordering dataflow, resource pairing"
@@ -65,6 +65,14 @@ func runC36(c *Ctx) {
 		nc := inClosures(fn)
 		c.Ob("C36.O2", fn, "the excise is not unregistered from inside a prepare/apply callback", c.P.Pos(fn.Pos()), nc == 0,
 			map[bool]string{true: "", false: fmt.Sprintf("%d call(s) of removeFromOngoingExcises inside closures of DB.ingest: those run before the sequence number is published", nc)}[nc == 0])
+		// O3: the prepare callback examines every queued flushable for overlap with the ingested
+		// files / the excise span (it must queue behind the newest overlapping one)
+		overlapCheck := MethodOn("computePossibleOverlaps", "")
+		if clo := c.ClosureWith("C36.O3", fn, overlapCheck); clo != nil {
+			if n := c.LoopExaminesAll("C36.O3", clo, overlapCheck, "every queued flushable is examined for overlap with the ingest"); n == 0 {
+				c.Unresolved("C36.O3", "no loop calling computePossibleOverlaps in ingest's prepare callback")
+			}
+		}
 		// R1: registration under DB.mu (inside the prepare closure)
 		lock, unlock, _ := dbMuMatchers(c, "C36.R1")
 		mapUpd := Pred("ongoingExcises[seqNum] = span", func(in ssa.Instruction) bool {
@@ -154,19 +162,28 @@ func runC37(c *Ctx) {
 	// The loop over the flushable queue examines every entry: on each back edge of that loop the
 	// entry's computePossibleOverlaps has been called (no `continue` that skips a kind of flushable
 	// — a queued flushable ingest is visible but not yet part of the pinned version).
+	overlapCheck := MethodOn("computePossibleOverlaps", "")
 	if fn := c.Fn("C37.O4", "p.(*DB).makeEventuallyFileOnlySnapshot"); fn != nil {
-		check := MethodOn("computePossibleOverlaps", "")
-		sites := instrs(fn, check)
-		if len(sites) == 0 {
-			c.Unresolved("C37.O4", "computePossibleOverlaps not called in makeEventuallyFileOnlySnapshot")
-		} else {
-			fl := NewFlow(c.P).After("overlap-examined", check) // absent at the loop header (the entry edge lacks it), hence per iteration
-			fl.MaxDepth = 0
-			res := fl.Analyze(fn, emptyState())
-			c.noteFlow(fl)
-			for _, in := range sites {
-				c.RequireOnBackEdges("C37.O4", res, in, "every queued flushable is examined for overlap with the snapshot's key ranges", []string{"overlap-examined"})
+		if n := c.LoopExaminesAll("C37.O4", fn, overlapCheck, "every queued flushable is examined for overlap with the snapshot's key ranges"); n == 0 {
+			c.Unresolved("C37.O4", "no loop calling computePossibleOverlaps in makeEventuallyFileOnlySnapshot")
+		}
+	}
+	// the same at the transition: a flushable may be skipped only because all its keys are newer
+	// than the snapshot (`!base.Visible(entry.logSeqNum, efos.seqNum, …)`)
+	if fn := c.Fn("C37.O4", "p.(*DB).maybeTransitionSnapshotsToFileOnlyLocked"); fn != nil {
+		logSeq := c.Field("C37.O4", "p.flushableEntry.logSeqNum")
+		newer := func(v ssa.Value) (bool, bool) {
+			call, ok := v.(*ssa.Call)
+			if !ok || infoOfCommon(call.Common()).Short != "Visible" || len(call.Common().Args) < 2 {
+				return false, false
 			}
+			if !isLoadOfField(call.Common().Args[0], logSeq) {
+				return false, false
+			}
+			return true, true // excused where Visible(...) is false
+		}
+		if n := c.LoopExaminesAll("C37.O4", fn, overlapCheck, "a flushable is skipped at the transition only if it is entirely newer than the snapshot", newer); n == 0 {
+			c.Unresolved("C37.O4", "no loop calling computePossibleOverlaps in maybeTransitionSnapshotsToFileOnlyLocked")
 		}
 	}
 	if fn := c.Fn("C37.O1", "p.(*EventuallyFileOnlySnapshot).transitionToFileOnlySnapshot"); fn != nil {
